@@ -105,6 +105,29 @@ class PendingComp(PendingExprGeneric[_CompNode]):
 
         self.nsp.comp_stack.append(self)
 
+    def _iter_fields(self):
+        for field_name in self.node._fields:
+            if field_name != "generators":
+                self.converted_dict[field_name] = yield getattr(self.node, field_name)
+        generators = self.converted_dict["generators"] = []
+        for gen in self.node.generators:
+            target = yield gen.target
+            if not generators:
+                # the first iterable is evaluated in the enclosing scope
+                self.nsp.comp_stack.pop()
+                _iter = yield gen.iter
+                self.nsp.comp_stack.append(self)
+            else:
+                _iter = yield gen.iter
+            ifs = []
+            for cond in gen.ifs:
+                ifs.append((yield cond))
+            generators.append(
+                comprehension(
+                    target=target, iter=_iter, ifs=ifs, is_async=gen.is_async
+                )
+            )
+
     def get_result(self) -> expr:
         assert self.nsp.comp_stack[-1] is self
         self.nsp.comp_stack.pop()
